@@ -4,6 +4,8 @@ import (
 	"fmt"
 	"go/ast"
 	"go/types"
+
+	"golang.org/x/tools/go/ssa"
 	"regexp"
 	"sort"
 	"strings"
@@ -197,7 +199,37 @@ func r15ResponseEncoder(c *an.Ctx) {
 		c.Add(an.Obligation{Rule: r1, Construct: "http.AcceptTypeKey/ContentTypeKey", Status: an.LOST, Detail: "context key constants not found"})
 		return
 	}
-	t := an.BuildPathTable(fn, an.PathOpts{})
+	// the negotiator: the closure (string)→(Encoder,string) of ResponseEncoder, or a function extracted from it
+	// since the reference tree with the same two results whose last parameter is the media type
+	var negFn *ssa.Function
+	for _, af := range fn.AnonFuncs {
+		if len(af.Params) == 1 && af.Signature.Results().Len() == 2 {
+			negFn = af
+		}
+	}
+	if negFn == nil {
+		for _, b := range fn.Blocks {
+			for _, in := range b.Instrs {
+				cl, ok := in.(ssa.CallInstruction)
+				if !ok {
+					continue
+				}
+				g := cl.Common().StaticCallee()
+				if g == nil || g.Object() == nil || g.Pkg != fn.Pkg || an.IsReferenceFunc(g) || len(g.Params) == 0 {
+					continue
+				}
+				res := g.Signature.Results()
+				if res.Len() == 2 && strings.HasSuffix(res.At(0).Type().String(), ".Encoder") && types.Identical(res.At(1).Type(), types.Typ[types.String]) {
+					negFn = g
+				}
+			}
+		}
+	}
+	negName := ""
+	if negFn != nil {
+		negName = an.FuncDisplayName(negFn)
+	}
+	t := an.BuildPathTable(fn, an.PathOpts{NoInline: map[string]bool{negName: true}})
 	c.Stats["paths_enumerated"] += len(t.Paths)
 	c.Stats["functions_tabled"]++
 	if t.Truncated || len(t.Paths) == 0 {
@@ -206,17 +238,22 @@ func r15ResponseEncoder(c *an.Ctx) {
 	}
 	ctVal := `p0\.Value\(` + regexp.QuoteMeta(ctKey) + `\)`
 	acVal := `p0\.Value\(` + regexp.QuoteMeta(acceptKey) + `\)`
+	// a call of the negotiator; $1 is the media type argument (the last one)
+	negCall := `http\.ResponseEncoder\$\w+\$?\d*\((.*)\)`
+	if negFn != nil && negFn.Parent() == nil {
+		negCall = regexp.QuoteMeta(negName) + `\((?:[^"]*, )?(.*)\)`
+	}
 	rules := mediaCanon(
 		`^\(`+ctVal+` == nil\)$`, "noCT",
 		`^\(`+acVal+` == nil\)$`, "noAccept",
 		`^\(`+ctVal+`\.\(string\) == ""\)$`, "ctEmpty",
 		`^\(mime\.ParseMediaType\(`+ctVal+`\.\(string\)\)#2 == nil\)$`, "ctParseOK",
 		`^\(mime\.ParseMediaType\((`+acVal+`\.\(string\)|"")\)#2 == nil\)$`, "acceptParseOK",
-		`^\(http\.ResponseEncoder\$\w+\$?\d*\((.*)\)#0 == nil\)$`, "negotiate($1)==nil",
+		`^\(`+negCall+`#0 == nil\)$`, "negotiate($1)==nil",
 	)
 	canonTable(t, rules)
 	reCTParsed := regexp.MustCompile(`^mime\.ParseMediaType\(` + ctVal + `\.\(string\)\)#0$`)
-	reNeg := regexp.MustCompile(`^http\.ResponseEncoder\$\w+\$?\d*\((.*)\)#(\d)$`)
+	reNeg := regexp.MustCompile(`^` + negCall + `#(\d)$`)
 	var tabProbs, setProbs, nilProbs []string
 	designed, negotiated := 0, 0
 	for i := range t.Paths {
@@ -339,23 +376,15 @@ func r15ResponseEncoder(c *an.Ctx) {
 	}
 	c.Check(lastResort, r1, f.Name+"#fallback", f.Decl.Pos(), `unrecognised Accept values fall back to negotiate("")`, `no path falls back to negotiate("")`)
 
-	// the negotiate closure's own table
-	if len(fn.AnonFuncs) == 0 {
-		c.Failf(r1, f.Name+"#negotiate", f.Decl.Pos(), "negotiation closure not found")
+	// the negotiator's own table
+	if negFn == nil {
+		c.Failf(r1, f.Name+"#negotiate", f.Decl.Pos(), "negotiation function (string)→(Encoder,string) not found")
 		return
 	}
-	var neg *an.PathTable
-	for _, af := range fn.AnonFuncs {
-		if len(af.Params) == 1 && af.Signature.Results().Len() == 2 {
-			neg = an.BuildPathTable(af, an.PathOpts{})
-		}
-	}
-	if neg == nil {
-		c.Failf(r1, f.Name+"#negotiate", f.Decl.Pos(), "negotiation closure (string)→(Encoder,string) not found")
-		return
-	}
+	neg := an.BuildPathTable(negFn, an.PathOpts{})
+	mtParam := fmt.Sprintf("p%d", len(negFn.Params)-1)
 	c.Stats["paths_enumerated"] += len(neg.Paths)
-	canonTable(neg, mediaCanon(`^\(p0 == ""\)$`, "empty"))
+	canonTable(neg, mediaCanon(`^\(`+mtParam+` == ""\)$`, "empty"))
 	atoms := []string{"empty", "mt==application/json", "mt==application/xml", "mt==application/gob", "mt==text/html", "mt==text/plain"}
 	_, probs := neg.CheckDecision(atoms, func(e an.Env) bool {
 		n := 0
@@ -374,7 +403,7 @@ func r15ResponseEncoder(c *an.Ctx) {
 		case e["mt==application/gob"]:
 			return `gob,"application/gob"`
 		case e["mt==text/html"], e["mt==text/plain"]:
-			return "text,p0"
+			return "text," + mtParam
 		}
 		return "nil,\"\""
 	}, func(p *an.Path, _ an.Env) string {
